@@ -206,8 +206,16 @@ def oracle_hard(case):
     return {"nontrivial": True, "classes": [f"K={K}"]}
 
 
+@st.composite
+def huge_perm_case(draw):
+    gs = draw(objs.gemini_spec(bases=("tv", "kl", "mmd", "hellinger", "chi2"), kernel_forms=("named",)))
+    p = draw(gens.p_spec(n_min=1025, n_max=2600, k_min=2, k_max=5, scales=[0.5, 2.0, 8.0]))
+    return {"g": gs, "p": p, "x": draw(gens.x_spec(d_max=2, kinds=("normal",))), "rseed": draw(gens.seeds)}
+
+
 def subs():
     return [
+        Sub("huge_permutation", huge_perm_case(), oracle_perm, 120, 1200, "permutation invariance for n in (1024, 2600]"),
         Sub("permutation", perm_case(), oracle_perm, 4000, 80000, "joint permutation of samples and clusters"),
         Sub("empty_cluster", empty_case(), oracle_empty, 3000, 60000, "appended empty cluster"),
         Sub("closed_simplex", closed_case(), oracle_closed, 4000, 80000, "bounds / finiteness on the closed simplex"),
